@@ -56,3 +56,13 @@ Theorem C05_njobs :
   apply_matcher_model sim t op am ws L R njobs cpus cand = Some (matcher_split sim t op am ws L R cand).
 Proof. exact apply_matcher_njobs_b. Qed.
 Print Assumptions C05_njobs.
+
+(* ---- tie: matcher/apply_matcher.py and Filter.filter_candset as REGENERATED from the source on this run
+   (Gen/MatcherGen.v over Model/Frame.v) compute exactly apply_matcher_model / filter_candset_model
+   (Model/Matcher.v) through the declared projection: key->row dictionaries, token cache, empty-candset
+   shortcut, split_table on frames, per-chunk loop, concat *)
+From SSJ Require Import Frame MatcherGen MatcherRefineBase MatcherRefineLoop MatcherRefineCandLoop MatcherRefineSplit MatcherRefinePar MatcherRefineChunks MatcherRefine MatcherRefineBridge MatcherRefineEnd MatcherRefineEndCand.
+Theorem generated_apply_matcher_refines_model :
+  ltac:(let t := type of apply_matcher_rows_end_to_end in exact t).
+Proof. exact apply_matcher_rows_end_to_end. Qed.
+Print Assumptions generated_apply_matcher_refines_model.
